@@ -187,6 +187,16 @@ def check(ctx: Ctx) -> str:
         tests = [ast.unparse(i) for i in g.ifs]
         okf = ast.unparse(pn[0].value.elt) == tv and ast.unparse(g.iter) == "vars" and tests in ([f"{tv}[:1] != '_'"], [f"not {tv}.startswith('_')"], [f"{tv}[0] != '_'"])
     ctx.check(okf, "pop_assign_tracking:filter", "compiler:CodeGenerator.pop_assign_tracking", "public_names filter", "public_names must be the assigned names without a leading underscore", pat.loc())
+    # the run-time half of `import ... with context`: the emitted call passes
+    # (context.get_all(), True, <frame locals>) - both module constructors must hand all three
+    # on to new_context, in that order, or the importing scope's locals are lost
+    for meth in ("make_module", "make_module_async"):
+        mm = repo.func(f"environment:Template.{meth}")
+        params = mm.params()[1:]
+        ncs = [c for c in astq.calls(mm.node) if astq.callee(c) == "self.new_context"]
+        okm = params == ["vars", "shared", "locals"] and len(ncs) == 1 and [ast.unparse(a) for a in ncs[0].args] == ["vars", "shared", "locals"] and not ncs[0].keywords
+        ctx.check(okm, f"{meth}:forwards", f"environment:Template.{meth}", f"new_context({', '.join(ast.unparse(a) for a in ncs[0].args) if ncs else '?'})",
+                  f"Template.{meth}(vars, shared, locals) must build its context with self.new_context(vars, shared, locals); with an argument dropped an import `with context` inside a loop / macro / with block no longer sees that scope's variables (in this mode only)", mm.loc())
     tm = repo.func("environment:TemplateModule.__init__")
     ctx.check("self.__dict__.update(context.get_exported())" in ast.unparse(tm.node), "TemplateModule:exports", "environment:TemplateModule.__init__", "module attributes", "a template module must expose exactly context.get_exported()", tm.loc())
     ge = repo.func("runtime:Context.get_exported")
